@@ -289,13 +289,20 @@ Proof. exists [0; 1], [(true, -2); (true, -1)]. vm_compute. reflexivity. Qed.
 Theorem guard_implies_in_bounds_deduplicate_sites dups num_sites msite :
   0 <= num_sites -> deduplicate_sites_entry true dups num_sites msite <> OOB.
 Proof.
-  intro H. unfold deduplicate_sites_entry. simpl.
+  intro H. unfold deduplicate_sites_entry. destruct (num_sites =? 0); [discriminate|]. simpl.
   destruct (ids_in_range num_sites msite) eqn:E; simpl; [|discriminate].
   destruct dups; [|discriminate].
   apply read_all_in_range with num_sites; [apply zlen_alloc; exact H | apply ids_in_range_forall; exact E].
 Qed.
 
 (* seeded change C09-12: only the site table is checked *)
+(* the documented early exit: a collection without sites is returned untouched, whatever the
+   mutation table refers to — no check, but also no access *)
+Example ex_deduplicate_sites_no_sites : deduplicate_sites_entry true false 0 [5; -3] = Ok tt.
+Proof. reflexivity. Qed.
+Example ex_deduplicate_sites_rejects : deduplicate_sites_entry true true 2 [0; 2] = Err E_LIBRARY.
+Proof. reflexivity. Qed.
+
 Theorem deduplicate_sites_site_only_check_mutant_refuted :
   exists num_sites msite, 0 <= num_sites /\ deduplicate_sites_entry false true num_sites msite = OOB.
 Proof. exists 2, [0; 2]. split; [lia | vm_compute; reflexivity]. Qed.
